@@ -29,7 +29,7 @@ C = 1e3
 PATTERNS = ["simple", "repeat2", "repeat3", "all_equal", "zeros", "projection", "mixed_sign", "cluster", "rank1", "zero_matrix",
             "neg_definite", "sym_pm"]
 STRUCT = ["diag_real", "tridiag_real", "tridiag_quat", "int", "zero_subcolumn", "leading_real_positive", "leading_zero", "block_diag",
-          "scaled", "layout", "gram", "leading_tiny", "graded_entries"]
+          "scaled", "layout", "gram", "leading_tiny", "graded_entries", "leading_near_real", "glued_wilkinson"]
 
 
 def cases(tier, seed):
@@ -288,6 +288,32 @@ def _struct(spec, ctx, R):
         c[1, 0] = [abs(c[1, 0, 0]) + 0.5, 0, 0, 0] if st == "leading_real_positive" else [0, 0, 0, 0]
         c[0, 1] = c[1, 0]
         A = refq.qa(c)
+    elif st == "glued_wilkinson":
+        # several Wilkinson matrices W_m (diagonal |i|, off-diagonal 1) glued by a tiny off-diagonal entry: an already tridiagonal Hermitian matrix
+        # with many eigenvalue clusters that are extremely tight but neither repeated nor separated - the standard stress test of tridiagonal
+        # eigensolvers; real, and conjugated by a diagonal of unit quaternions (quaternion off-diagonal entries)
+        m_, c_ = [(13, 3), (7, 4), (21, 2), (9, 5), (5, 3)][int(rng.integers(0, 5))]
+        glue = float(rng.choice([1e-12, 1e-10, 1e-14]))
+        n = m_ * c_
+        h_ = (m_ - 1) // 2
+        T = np.zeros((n, n))
+        for cc in range(c_):
+            o = cc * m_
+            T[o:o + m_, o:o + m_] = np.diag(np.abs(np.arange(-h_, h_ + 1)).astype(float)) + np.diag(np.ones(m_ - 1), 1) + np.diag(np.ones(m_ - 1), -1)
+            if cc:
+                T[o, o - 1] = T[o - 1, o] = glue
+        A = refq.qa(np.stack([T, 0 * T, 0 * T, 0 * T], axis=-1))
+        if rng.random() < 0.5:
+            D = refq.unit_quats(rng, n)
+            A = refq.symmetrize((A * D[:, None]) * np.conjugate(D)[None, :])
+    elif st == "leading_near_real":
+        # the phase-carrying entry A[1,0] is real up to a vector part of relative size 1e-8 .. 1e-12 (near-real, not real)
+        B = refq.randq(rng, n, n)
+        c = refq.fa(refq.symmetrize(B + refq.herm(B))).copy()
+        t_ = float(rng.choice([3e-9, 1e-8, 1e-10, 1e-12]))
+        c[1, 0, 1:] = c[1, 0, 1:] * t_ * abs(c[1, 0, 0])
+        c[0, 1] = c[1, 0] * np.array([1.0, -1.0, -1.0, -1.0])
+        A = refq.symmetrize(refq.qa(c))
     elif st in ("leading_tiny", "graded_entries"):
         # small-but-legitimate data next to O(1) data: the entry that carries the reflector's phase (A[1,0]) of relative size 1e-6 .. 1e-12, or
         # every entry of the matrix on its own scale (1 .. 1e-12, Hermitian): neither is round-off, both must be carried through
